@@ -18,6 +18,7 @@ option records and environments, and the composition with the `Rewrite` model of
 -/
 import GrcovModel.Lemmas.MainGlue
 import GrcovModel.Lemmas.Rewrite
+import GrcovModel.Props.C11Filter
 namespace Grcov.Props.C11
 open Grcov Grcov.UPath Grcov.Glob Grcov.Rewrite Grcov.MainGlue
 
@@ -140,38 +141,62 @@ theorem C11_main_cfg_composed (env : Env) (o : Opts) (p : Plan) (h : plan env o 
       simp [hc]
   · cases hcfg
 
-/-- … hence the report of a run is exactly the set of keys that the user's filters select
-(C11's selection theorem instantiated with the plan's configuration): a record is reported iff
-some key resolves to it, matches no `--ignore` glob, matches a `--keep-only` glob when any is
-given, exists when `--ignore-not-existing` is set and has the `--filter` status. -/
+/-- … hence the report of a run is exactly the set of keys that the user's filters select, IN THE
+ORDER OF THE CODE (second review, item 7): `flt abs` is the filter list `FileFilter::create` makes
+of the file at `abs` from the six `--excl-*` options (`C11_main_excl_positions`; any function
+here, `C11_main_report_selection_run` instantiates it). A record is reported iff some key resolves
+to it, matches no `--ignore` glob, matches a `--keep-only` glob when any is given, exists when
+`--ignore-not-existing` is set, and WHAT THE EXCLUSION MARKERS LEAVE of its data has the `--filter`
+status; the reported data is that remainder. -/
 theorem C11_main_report_selection (env : Env) (o : Opts) (p : Plan) (h : plan env o = .ok p)
     (mapping : Option (List (Bytes × Bytes))) (cfg : Cfg) (hcfg : p.rewriteCfg mapping = some cfg)
-    (fs : FS) (m : List (Bytes × Cov)) (rep : List Rec) (hrep : rewritePaths cfg fs m = .ok rep)
-    (r : Rec) :
+    (fs : FS) (flt : Bytes → List FileFilter.FT) (m : List (Bytes × Cov)) (rep : List Rec)
+    (hrep : Cli.RunAll.rewritePathsF cfg fs flt m = .ok rep) (r : Rec) :
     r ∈ rep ↔ ∃ kc ∈ m, ∃ abs rel, resolveKey cfg fs kc.1 = .ok (some (abs, rel)) ∧
       setMatch cfg.ignore rel = false ∧ (cfg.keep = [] ∨ setMatch cfg.keep rel = true) ∧
       (o.rest.ignoreNotExisting = true → fs.exists abs = true) ∧
-      filterOk (filterOption o.filter) kc.2 = true ∧ r = ⟨abs, rel, kc.2⟩ := by
+      filterOk (filterOption o.filter) (FileFilter.applyFilters (flt abs) kc.2) = true ∧
+      r = ⟨abs, rel, FileFilter.applyFilters (flt abs) kc.2⟩ := by
   have hargs := C11_main_rewrite_args env o p h
   have hine : cfg.ignoreNotExisting = o.rest.ignoreNotExisting ∧ cfg.filter = filterOption o.filter := by
     unfold Plan.rewriteCfg at hcfg
     split at hcfg
     · cases hcfg; exact ⟨hargs.2.2.2.2.1, hargs.2.2.2.2.2⟩
     · cases hcfg
-  rw [mem_rewritePaths hrep r]
-  have key : ∀ kc : Bytes × Cov, rewriteKey cfg fs kc = .ok (some r) ↔
+  rw [C11_report_members_markers cfg fs flt m rep hrep r]
+  have key : ∀ kc : Bytes × Cov, Cli.RunAll.rewriteKeyF cfg fs flt kc = .ok (some r) ↔
       ∃ abs rel, resolveKey cfg fs kc.1 = .ok (some (abs, rel)) ∧
         setMatch cfg.ignore rel = false ∧ (cfg.keep = [] ∨ setMatch cfg.keep rel = true) ∧
         (o.rest.ignoreNotExisting = true → fs.exists abs = true) ∧
-        filterOk (filterOption o.filter) kc.2 = true ∧ r = ⟨abs, rel, kc.2⟩ := by
+        filterOk (filterOption o.filter) (FileFilter.applyFilters (flt abs) kc.2) = true ∧
+        r = ⟨abs, rel, FileFilter.applyFilters (flt abs) kc.2⟩ := by
     intro kc
-    rw [rewriteKey_some_iff, ← hine.1, ← hine.2]
-    constructor
-    · rintro ⟨a, rl, h1, h2⟩; exact ⟨a, rl, h1, (selectRec_some_iff _ _ _ _ _ _).1 h2⟩
-    · rintro ⟨a, rl, h1, h2⟩; exact ⟨a, rl, h1, (selectRec_some_iff _ _ _ _ _ _).2 h2⟩
+    rw [C11_selection_iff, ← hine.1, ← hine.2]
   constructor
   · rintro ⟨kc, hkc, hk⟩; exact ⟨kc, hkc, (key kc).mp hk⟩
   · rintro ⟨kc, hkc, hk⟩; exact ⟨kc, hkc, (key kc).mpr hk⟩
+
+/-- The same for a whole run of the composed model (`Cli.RunAll.records`: inputs parsed, filed by
+`add_results`, then `rewrite_paths` with the `FileFilter` of the plan): `ro` is any run whose
+rewrite configuration and `--excl-*` arguments are the plan's; the filter list of a file is
+`FileFilter.createSrc` of its text with the six regexes in the plan's positions. -/
+theorem C11_main_report_selection_run (env : Env) (o : Opts) (p : Plan) (h : plan env o = .ok p)
+    (mapping : Option (List (Bytes × Bytes))) (ro : Cli.RunAll.Opts) (w : Cli.RunAll.World)
+    (hcfg : p.rewriteCfg mapping = some ro.cfg) (hexcl : ro.excl = p.fileFilter)
+    (inputs : List Cli.RunAll.Input) (rep : List Rec)
+    (hrep : Cli.RunAll.records ro w inputs = .ok rep) (r : Rec) :
+    r ∈ rep ↔ ∃ kc ∈ Cli.RunAll.resultMap ro w inputs, ∃ abs rel,
+      resolveKey ro.cfg w.fs kc.1 = .ok (some (abs, rel)) ∧
+      setMatch ro.cfg.ignore rel = false ∧ (ro.cfg.keep = [] ∨ setMatch ro.cfg.keep rel = true) ∧
+      (o.rest.ignoreNotExisting = true → w.fs.exists abs = true) ∧
+      filterOk (filterOption o.filter)
+        (FileFilter.applyFilters (FileFilter.createSrc p.fileFilter.toOpts
+          (Cli.RunAll.rxOf ro.isMatch p.fileFilter) (w.text abs)) kc.2) = true ∧
+      r = ⟨abs, rel, FileFilter.applyFilters (FileFilter.createSrc p.fileFilter.toOpts
+          (Cli.RunAll.rxOf ro.isMatch p.fileFilter) (w.text abs)) kc.2⟩ := by
+  have := C11_main_report_selection env o p h mapping ro.cfg hcfg w.fs (Cli.RunAll.filterList ro w)
+    (Cli.RunAll.resultMap ro w inputs) rep hrep r
+  simpa [Cli.RunAll.filterList, hexcl] using this
 
 /-! ### a concrete run -/
 
